@@ -312,16 +312,25 @@ class Parser:
         raise PestGrammarSyntaxError("expected a number or a comma", token=token)
 
     def parse_number(self, token: Token) -> int:
-        number = self.parse_int(token)
-        if number > MAX_REPEAT:
+        # Leading zeros are not significant ("007" is 7).  More than ten
+        # significant digits are above MAX_REPEAT whatever they are, so they
+        # are never handed to int(), which refuses more than
+        # sys.get_int_max_str_digits() digits.
+        digits = token.value.lstrip("0") or "0"
+        if len(digits) > len(str(MAX_REPEAT)) or int(digits) > MAX_REPEAT:
             raise PestGrammarSyntaxError("number cannot overflow u32", token=token)
-        return number
+        return int(digits)
 
     def parse_int(self, token: Token) -> int:
+        # `integer = @{ number | "-" ~ "0"* ~ '1'..'9' ~ number? }`: zeros before
+        # the first significant digit do not count towards int()'s digit limit.
+        value = token.value
+        sign, digits = ("-", value[1:]) if value.startswith("-") else ("", value)
+        digits = digits.lstrip("0") or "0"
         try:
-            return int(token.value)
+            return int(sign + digits)
         except ValueError as err:
-            # More digits than sys.get_int_max_str_digits() allows.
+            # More significant digits than sys.get_int_max_str_digits() allows.
             raise PestGrammarSyntaxError("number too large", token=token) from err
 
     def parse_peek_expression(self, tag: str | None) -> Expression:
